@@ -1,16 +1,141 @@
 import ArrowModel.C04.Lemmas
 import ArrowModel.C04.ArrayModel
-import ArrowModel.C02.Lemmas
-import ArrowModel.C01.Lemmas
 /-
 C04 — lemmas for the whole-array model (`C04/ArrayModel.lean`): the array the writer emits for
 rows `[o, o+l)` of a well-formed array denotes exactly those rows (`decode_norm`), by mutual
 induction over the array tree, composing the bit-slice, truncation and offset re-encoding
 lemmas of `C04/Lemmas.lean` with the byte-level readers of the physical library (C09) and the
-little-endian / slice lemmas of C01 and C02.  Core tactics only.
+little-endian and `tabulateM` lemmas (copied from C01/C02 so that this file depends only on the
+physical library).  Core tactics only.
 -/
 namespace ArrowModel.C04
 open ArrowModel.Physical ArrowModel.Proto
+
+/-! ### copied helpers (C02: `tabulateM`/`decode` unfolding, C01: little-endian round trip) -/
+
+/-- rows `[o, o+l)` of a column -/
+def sliceSpec {α} (o l : Nat) (c : List α) : List α := (c.drop o).take l
+
+theorem map_some_inj {α} : ∀ (a b : List α), a.map some = b.map some → a = b
+  | [], b, h => by cases b <;> simp_all
+  | x :: a, b, h => by
+    cases b with
+    | nil => simp at h
+    | cons y b => simp at h; rw [h.1, map_some_inj a b h.2]
+
+theorem mapM_eq_some_iff {α β} (f : α → Option β) : ∀ (xs : List α) (ys : List β),
+    xs.mapM f = some ys ↔ xs.map f = ys.map some
+  | [], ys => by cases ys <;> simp
+  | x :: xs, ys => by
+    rw [List.mapM_cons]
+    cases hfx : f x with
+    | none => cases ys <;> simp [hfx]
+    | some y =>
+      cases hr : xs.mapM f with
+      | none =>
+        have := mapM_eq_some_iff f xs
+        cases ys with
+        | nil => simp
+        | cons y' ys' =>
+          simp [hfx]
+          intro _ h
+          have := (this ys').2 h
+          simp [hr] at this
+      | some r =>
+        have h1 := (mapM_eq_some_iff f xs r).1 hr
+        cases ys with
+        | nil => simp
+        | cons y' ys' =>
+          simp [hfx, h1]
+          intro _
+          constructor
+          · intro h; rw [h]
+          · intro h; exact map_some_inj _ _ h
+
+theorem tabulateM_eq_some_iff {α} (n : Nat) (f : Nat → Option α) (vs : List α) :
+    tabulateM n f = some vs ↔ vs.length = n ∧ ∀ i, (h : i < vs.length) → f i = some vs[i] := by
+  unfold tabulateM
+  rw [mapM_eq_some_iff]
+  constructor
+  · intro h
+    have hl : vs.length = n := by
+      have := congrArg List.length h
+      simpa using this.symm
+    refine ⟨hl, fun i hi => ?_⟩
+    have := congrArg (fun l => l[i]?) h
+    simp [hl ▸ hi, List.getElem?_eq_getElem hi] at this
+    have hi' : i < n := hl ▸ hi
+    simpa [hi'] using this
+  · intro ⟨hl, h⟩
+    apply List.ext_getElem
+    · simp [hl]
+    · intro i h1 h2
+      simp at h1 h2
+      simp [h i h2]
+
+theorem decode_eq (d : ArrayData) :
+    decode d =
+      match decodeAll d.children with
+      | none => none
+      | some cvs => tabulateM d.len (slotVal d cvs) := by
+  obtain ⟨t, n, off, nulls, bs, cs⟩ := d
+  rw [decode]
+  rfl
+
+theorem encLE_length (w v : Nat) : (encLE w v).length = w := by
+  induction w generalizing v with
+  | zero => rfl
+  | succ w ih => simp [encLE, ih]
+
+theorem readLE_append_right (pre bs : List Nat) (p w : Nat) :
+    readLE (pre ++ bs) (pre.length + p) w = readLE bs p w := by
+  induction w generalizing p with
+  | zero => rfl
+  | succ w ih =>
+    simp only [readLE]
+    rw [List.getElem?_append_right (by omega), show pre.length + p - pre.length = p by omega,
+      show pre.length + p + 1 = pre.length + (p + 1) by omega, ih]
+
+theorem readLE_encLE (w v : Nat) (post : List Nat) : readLE (encLE w v ++ post) 0 w = some (v % 2 ^ (8 * w)) := by
+  induction w generalizing v with
+  | zero => simp [readLE, Nat.mod_one]
+  | succ w ih =>
+    simp only [encLE, readLE, List.cons_append, List.getElem?_cons_zero]
+    have h := readLE_append_right [v % 256] (encLE w (v / 256) ++ post) 0 w
+    simp only [List.singleton_append, List.length_singleton, Nat.add_zero] at h
+    rw [show (0 : Nat) + 1 = 1 by rfl, h, ih]
+    simp only [Nat.mod_mod]
+    congr 1
+    rw [show 8 * (w + 1) = 8 + 8 * w by omega, Nat.pow_add, show (2 : Nat) ^ 8 = 256 by rfl, Nat.mod_mul]
+
+theorem encInts_length (w : Nat) (xs : List Nat) : (encInts w xs).length = xs.length * w := by
+  induction xs with
+  | nil => simp [encInts]
+  | cons x xs ih => simp [encInts, encLE_length, ih, Nat.add_mul]; omega
+
+theorem readLE_encInts (w : Nat) (xs : List Nat) (i : Nat) (hi : i < xs.length) :
+    readLE (encInts w xs) (i * w) w = some (xs[i] % 2 ^ (8 * w)) := by
+  induction xs generalizing i with
+  | nil => simp at hi
+  | cons x xs ih =>
+    cases i with
+    | zero => simp only [encInts, Nat.zero_mul, List.getElem_cons_zero]; exact readLE_encLE w x _
+    | succ i =>
+      simp only [encInts, List.getElem_cons_succ]
+      have h := readLE_append_right (encLE w x) (encInts w xs) (i * w) w
+      rw [encLE_length] at h
+      rw [show (i + 1) * w = w + i * w by rw [Nat.add_mul]; omega, h]
+      exact ih i (by simpa using hi)
+
+/-- reading slot `i` of an encoded offsets buffer gives back the offset, if it fits the signed width -/
+theorem readInt_encInts (w : Nat) (xs : List Nat) (i : Nat) (hi : i < xs.length) (hfit : 2 * xs[i] < 2 ^ (8 * w)) :
+    readInt (encInts w xs) w true i = some (xs[i] : Int) := by
+  unfold readInt
+  rw [readLE_encInts w xs i hi]
+  have : xs[i] % 2 ^ (8 * w) = xs[i] := Nat.mod_eq_of_lt (by omega)
+  simp [this, toSigned, hfit]
+
+
 
 theorem testBit_byte_add (b r i : Nat) (hb : b < 256) :
     (b + 256 * r).testBit i = if i < 8 then b.testBit i else r.testBit (i - 8) := by
@@ -106,8 +231,8 @@ theorem validAt_norm (nulls : Option Nulls) (t : DType) (len off : Nat) (bufs : 
 /-! ### windows -/
 
 theorem sliceSpec_getElem? {α} (cv : List α) (a l i : Nat) (hi : i < l) :
-    (ArrowModel.C02.sliceSpec a l cv)[i]? = cv[a + i]? := by
-  simp [ArrowModel.C02.sliceSpec, List.getElem?_take, hi]
+    (sliceSpec a l cv)[i]? = cv[a + i]? := by
+  simp [sliceSpec, List.getElem?_take, hi]
 
 theorem readLE_window (b : List Nat) (a n p w : Nat) (h : p + w ≤ n) :
     readLE ((b.drop a).take n) p w = readLE b (a + p) w := by
@@ -160,7 +285,6 @@ theorem readBytes_truncate (b : List Nat) (w off len i : Nat) (hi : i < len) (hb
 
 /-! ### node-level reduction -/
 
-open ArrowModel.C02 in
 theorem decode_of_slots (d d' : ArrayData) (cvs cvs' : List (List Val)) (vs : List Val) (o l : Nat)
     (hd : decode d = some vs) (hc : decodeAll d.children = some cvs)
     (hc' : decodeAll d'.children = some cvs') (hl : d'.len = l) (hol : o + l ≤ d.len)
@@ -177,12 +301,12 @@ theorem decode_of_slots (d d' : ArrayData) (cvs cvs' : List (List Val)) (vs : Li
   simp [sliceSpec]
 
 theorem decode_len {d : ArrayData} {vs : List Val} (h : decode d = some vs) : vs.length = d.len := by
-  rw [ArrowModel.C02.decode_eq] at h
+  rw [decode_eq] at h
   cases hc : decodeAll d.children with
   | none => simp [hc] at h
   | some cvs =>
     simp only [hc] at h
-    exact ((ArrowModel.C02.tabulateM_eq_some_iff _ _ _).1 h).1
+    exact ((tabulateM_eq_some_iff _ _ _).1 h).1
 
 mutual
 /-- nodes for which `decode_norm` is proved -/
@@ -258,7 +382,6 @@ theorem mapM_congr_opt {α γ} (f g : α → Option γ) (xs : List α) (h : ∀ 
   | cons x xs ih =>
     simp only [List.mapM_cons, h x (by simp), ih (fun y hy => h y (by simp [hy]))]
 
-open ArrowModel.C02 in
 theorem slot_struct (fs : Fields) (len off : Nat) (nulls : Option Nulls) (cs cs' : List ArrayData)
     (cvs : List (List Val)) (o l i : Nat) (hi : i < l) (hol : o + l ≤ len)
     (hn : NullsOk ⟨.struct fs, len, off, nulls, [], cs⟩) :
@@ -270,7 +393,6 @@ theorem slot_struct (fs : Fields) (len off : Nat) (nulls : Option Nulls) (cs cs'
   rw [mapM_congr_opt _ (fun cv => cv[off + (o + i)]?) cvs (fun cv _ => by
     rw [sliceSpec_getElem? cv (off + o) l i hi, Nat.add_assoc])]
 
-open ArrowModel.C02 in
 theorem slot_fsl (n : Nat) (it : DType) (nb : Bool) (len off : Nat) (nulls : Option Nulls) (cs cs' : List ArrayData)
     (cv : List Val) (o l i : Nat) (hi : i < l) (hol : o + l ≤ len)
     (hn : NullsOk ⟨.fsl n it nb, len, off, nulls, [], cs⟩) (hcv : (off + len) * n ≤ cv.length) :
@@ -338,16 +460,6 @@ theorem readLE_bound (bs : List Nat) : ∀ (w p v : Nat), readLE bs p (w + 1) = 
       cases h2 : readLE bs (p + 1) (w + 1) with
       | none => simp [h1, h2] at h
       | some r => have := readLE_bound bs w (p + 1) r h2; omega
-
-theorem encLE_eq (w v : Nat) : encLE w v = ArrowModel.C01.encLE w v := by
-  induction w generalizing v with
-  | zero => rfl
-  | succ w ih => simp [encLE, ArrowModel.C01.encLE, ih]
-
-theorem encInts_eq (w : Nat) (xs : List Nat) : encInts w xs = ArrowModel.C01.encInts w xs := by
-  induction xs with
-  | nil => rfl
-  | cons x xs ih => simp [encInts, ArrowModel.C01.encInts, ih, encLE_eq]
 
 /-- position `q` of the offsets buffer holds a non-negative offset that `allOffsets` reproduces -/
 def GoodOff (offs : List Nat) (w q : Nat) : Prop :=
@@ -459,9 +571,9 @@ theorem binValue_norm (offs data : List Nat) (lg : Bool) (P l i : Nat) (hi : i <
   have rd : ∀ k, k ≤ l → readInt (encInts (offW lg) r.1) (offW lg) true k =
       some ((O.getD (P + k) 0 - O.getD P 0 : Nat) : Int) := by
     intro k hk
-    rw [hr, encInts_eq]
+    rw [hr]
     have hk' : k < ((List.range (l + 1)).map (fun i => O.getD (P + i) 0 - O.getD P 0)).length := by simp; omega
-    have := ArrowModel.C01.readInt_encInts (offW lg) _ k hk' (by simpa using fit k hk)
+    have := readInt_encInts (offW lg) _ k hk' (by simpa using fit k hk)
     simpa using this
   have m0 := hm P (P + i) (by omega) (by omega) (by omega)
   have m1 := hm (P + i) (P + i + 1) (by omega) (by omega) (by omega)
@@ -512,7 +624,6 @@ theorem slot_utf8 (lg : Bool) (len off : Nat) (nulls : Option Nulls) (offs data 
   simp only at this
   simp only [Nat.zero_add, this, Nat.add_assoc]
 
-open ArrowModel.C02 in
 mutual
 theorem decode_norm : ∀ (d : ArrayData) (o l : Nat) (vs : List Val), WellFormed d → provedA d = true →
     decode d = some vs → o + l ≤ d.len → decode (norm d o l) = some (sliceSpec o l vs)
@@ -718,6 +829,13 @@ theorem flatten_count (k v : Nat) (hk : k = Generated.C04.HAS_VALIDITY_SPLIT_VER
     obtain ⟨ht, hv, hb⟩ := nodeOk_iff _ _ _ _ hn
     have := flatten_lengths x
     simp only [chOf, ht, hc, flattenAll, hv, hv_true (.binary l) v (by simp) (by simp) (by simp), hb] at this
+    simp [consumeCount, this]
+  | .view u, x, h, _ => by
+    simp only [shapeOk, Bool.and_eq_true, List.isEmpty_iff] at h
+    obtain ⟨hn, hc⟩ := h
+    obtain ⟨ht, hv, hb⟩ := nodeOk_iff _ _ _ _ hn
+    have := flatten_lengths x
+    simp only [chOf, ht, hc, flattenAll, hv, hv_true (.view u) v (by simp) (by simp) (by simp), hb] at this
     simp [consumeCount, this]
   | .dict kw s val, x, h, _ => by
     simp only [shapeOk] at h
